@@ -9,6 +9,8 @@ use crate::val::{Caller, V};
 
 pub struct Prepared {
     pub call: Caller,
+    /// the script that was compiled (the op's, or its alternative)
+    pub script: String,
     // keep the compiled code alive as long as the caller
     _pkg: Package<NoCtx>,
     _rt: Runtime<NoCtx>,
@@ -17,18 +19,31 @@ pub struct Prepared {
 /// Compile the script of `op` and fetch `f` under the op's Rust signature.
 /// `Err((class, message))`.
 pub fn prepare(op: &Op) -> Result<Prepared, (String, String)> {
+    match prepare_script(&op.script, op.bind) {
+        Err((class, msg)) if class == "compile" && op.alt.is_some() => {
+            // the built-in may have been repaired to its alternative signature
+            let alt = op.alt.as_ref().unwrap();
+            prepare_script(&alt.script, alt.bind).map_err(|_| (class, msg))
+        }
+        r => r,
+    }
+}
+
+type BindFn = fn(&mut Package<NoCtx>, &str) -> Result<Caller, String>;
+
+fn prepare_script(script: &str, bind: BindFn) -> Result<Prepared, (String, String)> {
     let rt = host::runtime();
-    let mut pkg = match host::compile(&rt, &op.script) {
+    let mut pkg = match host::compile(&rt, script) {
         Ok(p) => p,
         Err(host::CompileFail::Report(r)) => return Err(("compile".into(), r)),
         Err(host::CompileFail::Panic(p)) => return Err(("compile-panic".into(), p)),
     };
-    let call = match vcore::util::catch(|| (op.bind)(&mut pkg, "f")) {
+    let call = match vcore::util::catch(|| bind(&mut pkg, "f")) {
         Ok(Ok(c)) => c,
         Ok(Err(e)) => return Err(("get_function".into(), e)),
         Err(p) => return Err(("get_function-panic".into(), p)),
     };
-    Ok(Prepared { call, _pkg: pkg, _rt: rt })
+    Ok(Prepared { call, script: script.to_string(), _pkg: pkg, _rt: rt })
 }
 
 pub fn radices(doms: &[Vec<V>]) -> Vec<u64> {
@@ -48,12 +63,16 @@ pub fn args_at(doms: &[Vec<V>], sub: u64) -> Vec<V> {
 
 /// the literal case, as written into violations, samples and replays
 pub fn case_json(op: &Op, args: &[V], via: &str) -> J {
+    case_json_script(op, &op.script, args, via)
+}
+
+pub fn case_json_script(op: &Op, script: &str, args: &[V], via: &str) -> J {
     json!({
         "kind": "builtin",
         "builtin": op.name,
         "form": op.form,
         "via": via,
-        "script": op.script,
+        "script": script,
         "args": args.iter().map(|a| a.json()).collect::<Vec<_>>(),
     })
 }
